@@ -53,3 +53,10 @@ package hash
 //@   safety
 //@   modifies nothing
 //@   ensures [view-of-a-copy] len(result) == 32 && isFresh(result) && forall k int :: 0 <= k && k < 32 ==> result[k] == h[k]
+
+//@ func (SHA256Hash).Compare
+//@   prop C10
+//@   pure
+//@ func (SHA256Hash).Equals
+//@   prop C10
+//@   pure
